@@ -18,16 +18,18 @@ SIM = {
  "C18": ("fault_enumeration", "panic injected at the i-th callback invocation for every i (enumerated after a dry run): panic reaches exactly one caller, entry unchanged (linearizability with the panicked call as a no-op), locks free and structure well formed at quiescence", "5/C18"),
 }
 
+SIM.update({
+ "C02": ("exploration", "single-client runs of the simulator (no schedule in this property): generated operation sequences over the whole public surface executed step by step against BTreeMap/BTreeSet, all hashers, capacities, both facades, collector batch sizes; full-content comparison after every step", "5/C02"),
+ "C09": ("fault_enumeration", "complete enumeration of every public guard-taking method x structural state (incl. mid-resize left by a stalled helper) x foreign-argument position, run as simulated threads with the pointer seam witnessing which collector's guard protected each load/retire; method table cross-checked against the sources", "5/C09"),
+ "C15": ("exploration", "vector-clock happens-before monitor fed by the orderings flurry passes at its seams during seeded simulated runs (every cross-thread payload read must be ordered after the payload's initialisation); plus Miri many-seeds (weak-memory emulation, data-race detector) on the unhooked crate", "5/C15"),
+})
+
 NA = [
  ("C16", "compile-time borrow-checker verdict on program texts; nothing executes, so there is no schedule, clock or fault for a simulator to control"),
  ("C17", "compile-time trait-bound verdict on program texts; nothing executes"),
  ("C19", "serde half is a pure function of the input document; rayon half gets its concurrency from rayon-core's pool, which has no scheduler seam without patching a dependency"),
 ]
-PENDING = [
- ("C02", "check under construction (single-client reference-model comparison); not claimed yet"),
- ("C09", "check under construction (foreign-guard enumeration); not claimed yet"),
- ("C15", "check under construction (happens-before monitor + Miri); not claimed yet"),
-]
+PENDING = []
 
 def main():
     commits = subprocess.run(["git","-C","/repo","log","--format=%h %s"],capture_output=True,text=True).stdout.splitlines()
@@ -56,6 +58,7 @@ def main():
             "add_only": True,
         },
         "engines": [
+            {"name": "miri-many-seeds", "path": "/verif/miri", "serves_properties": ["C03", "C04", "C15"], "kind_free_text": "secondary engine: Miri's seeded scheduler and weak-memory emulation over small argv-derived scenarios on the unhooked crate (use-after-free, data races, leaks); driven by /verif/miri_check.py after the simulator part of the check"},
             {"name": "flurry-sim", "path": "/verif/sim", "serves_properties": sorted(SIM.keys()), "kind_free_text": "deterministic simulator: real OS threads from a pool, one baton, every seam of flurry is a decision point driven by one PRNG or a recorded trace; fault injection (preemption, stalls, spurious unparks, reclamation pressure, callback panics, knob skew); oracles over recorded histories; seeded search, ddmin minimiser, replay files"},
         ],
         "checks": checks,
